@@ -91,6 +91,8 @@ func c12Get(shape int, desc int) *c12Decl {
 		ty("Grs", decl.TGrades, "", []decl.Grade{1, 2}),
 		ty("PL", decl.TPLevel, "", decl.PLevel(1), decl.PLevel(0)),
 		ty("PLs", decl.TPLevels, "", []decl.PLevel{1, 0}, []decl.PLevel{1}),
+		ty("I0", decl.TInt, "0", 64, -255, 10), // base 0: the reader infers the base from the prefix, the writer has to write something it reads back
+		ty("U0", decl.TUint16, "0", uint16(10), uint16(255), uint16(8)),
 		ty("PSs", decl.TPStrs, "", []*string{sp("x")}, []*string{sp(" edge "), sp("")}, []*string{sp("a;b"), sp("\"q")}),
 	)
 	// optional-argument options: an empty value is a value, not "no argument"
@@ -348,7 +350,7 @@ func init() {
 		ShardDepth: 5,
 		Body:       body,
 		Rule: "(A) every string of length <= 2 (quick) / <= 3 (thorough) over {space tab \" \\ a LF CR é 0xFF = : ; # [ ] NBSP ,} plus 4095/4096/4098/10200/65536/90000-byte strings, used as a string option, a slice element (alone / second), a map value, a map key (only keys the key:value syntax can express), a string with a default tag; " +
-			"(B) 30 typed fields (incl. a type whose Marshaler and Unmarshaler have pointer receivers, scalar and slice, a slice of string pointers with awkward elements, two optional-argument options holding empty strings, integer-keyed maps with base 16 / 36, a slice with two default tags, a named integer type with a String method but no marshalling of its own, and a slice of it) (ints in bases 2/10/16/36 at their limits, uints, float32/64 incl. max, denormal, +-Inf, -0, NaN, bool, []bool, Duration limits, *int, *string, Marshaler/Unmarshaler, []int, map[string]int, map[int]string, map[string]bool, []uint8 base 16) each with its interesting values, and all fields set at once; " +
+			"(B) 32 typed fields (incl. a signed and an unsigned integer with base 0, a type whose Marshaler and Unmarshaler have pointer receivers, scalar and slice, a slice of string pointers with awkward elements, two optional-argument options holding empty strings, integer-keyed maps with base 16 / 36, a slice with two default tags, a named integer type with a String method but no marshalling of its own, and a slice of it) (ints in bases 2/10/16/36 at their limits, uints, float32/64 incl. max, denormal, +-Inf, -0, NaN, bool, []bool, Duration limits, *int, *string, Marshaler/Unmarshaler, []int, map[string]int, map[int]string, map[string]bool, []uint8 base 16) each with its interesting values, and all fields set at once; " +
 			"x 5 declaration shapes (flat, nested namespaced groups, command with group, sub-subcommand, command three levels deep with a group; with ini-name, hidden, no-ini and callback options) x description {none, one line, two lines} x all 8 IniOptions x writer state {fresh, option previously read quoted, previously read under its long name}; " +
 			"oracle: Write -> Parse into a fresh parser over the same declaration -> ParseArgs(nil): every written option equal (NaN-aware); distinct = distinct (usage, value class, options/state/shape, result)",
 		Assumptions:  []string{"values are stored into the option struct after an initial ParseArgs(nil), as a program does before saving its configuration", "map keys restricted exactly as the statement restricts them"},
